@@ -1,1 +1,353 @@
-/-! C15 — property theorems (none yet). -/
+import Req.Lemmas.Decode
+/-!
+C15 — charset auto-decoding never corrupts text.
+
+Model: `Req/Client/Decode.lean` (decode.go after `fixes/C15-1-peekread-streaming-decode.patch`,
+the selection of transport.go `autoDecodeResponseBody`, the BOM table of charsets.go);
+`Legacy.*` is the `peekRead` of the pinned tree.
+
+* decoder instances satisfy the streaming law: `latin1_lawful`, `windows1252_lawful`,
+  `utf16_lawful` (a multi-byte code: characters can be split by a chunk boundary),
+  `tableDecoder_lawful`;
+* `outcome_by_sniff` / `two_outcomes`: ∀ lawful sniffer results, ∀ body, ∀ segmentation of the
+  body into source reads (incl. empty reads, data+EOF together), ∀ caller buffer sizes: a body
+  read to EOF is the original or the whole-body decode, and which one is decided by
+  `find (first data chunk)` alone;
+* `split_independent`: two deliveries of the same body differ at most in that verdict;
+* `no_bytes_added`, `read_len_le`: no padding — the length is that of the chosen outcome and
+  every `Read` returns at most `len(p)` bytes;
+* `header_charset_always_applied`, `unselected_type_untouched`, `utf8_identity`,
+  `utf8_bom_not_decoded`, `bom_beats_meta`;
+* `peek_never_set`: the patched automaton never enters the `peekDrain` path;
+* `legacy_pads`, `legacy_splits_character`, `legacy_sniffs_stale_buffer`: the same statements
+  are FALSE of the pinned tree's `peekRead` (witnesses replayed on the implementation by the
+  lane `read`, class `peekread-legacy`).
+-/
+namespace Req.Props.C15
+open Req.Proto Req.Decode
+
+/-! ### the decoder instances are lawful -/
+
+theorem charmap_lawful (cp : UInt8 → Nat) : (charmap cp).Lawful :=
+  ofBytewise_lawful _ _ _ _ (by intro input; simp [charmap_run])
+
+/-- ISO-8859-1 → UTF-8. -/
+theorem latin1_lawful : latin1.Lawful := charmap_lawful _
+
+/-- windows-1252 → UTF-8 (what the labels `iso-8859-1`, `latin1`, `ascii` mean to the code). -/
+theorem windows1252_lawful : windows1252.Lawful := charmap_lawful _
+
+/-- UTF-16LE/BE → UTF-8 as x/text decodes it: any chunking (also through the middle of a
+code unit or between the halves of a surrogate pair) + flush = the whole-input loop. -/
+theorem utf16_lawful (be : Bool) : (utf16 be).Lawful :=
+  ofBytewise_lawful _ _ _ _ (by
+    intro input
+    have := utf16_run be input [] trivial
+    simpa [u16Spec, utf16All] using this)
+
+theorem tableDecoder_lawful (tbl : List (Bytes × Bytes)) : (tableDecoder tbl).Lawful := by
+  intro chunks
+  simp [tableDecoder_feedAll]
+  rfl
+
+-- the law is not vacuous: a surrogate pair (U+1F600) cut after every byte
+example : ((utf16 false).feedAll (utf16 false).init [[0x3d], [0xd8], [0x00], [0xde]]).2
+    ++ (utf16 false).flush ((utf16 false).feedAll (utf16 false).init [[0x3d], [0xd8], [0x00], [0xde]]).1
+    = [0xf0, 0x9f, 0x98, 0x80] := by decide
+example : (utf16 false).decodeAll [0x3d, 0xd8, 0x00, 0xde] = [0xf0, 0x9f, 0x98, 0x80] := by decide
+-- lone low half + odd trailing byte
+example : (utf16 true).decodeAll [0xdc, 0x00, 0x41] = [0xef, 0xbf, 0xbd, 0xef, 0xbf, 0xbd] := by decide
+example : windows1252.decodeAll [0x80, 0xe9, 0x41] = [0xe2, 0x82, 0xac, 0xc3, 0xa9, 0x41] := by decide
+example : latin1.decodeAll [0x80, 0xe9] = [0xc2, 0x80, 0xc3, 0xa9] := by decide
+
+variable {σ : Type}
+
+/-! ### the sniffing reader (`autoDecodeReadCloser`) -/
+
+/-- Everything a caller gets from a fresh `autoDecodeReadCloser` over `src` with the buffer
+sizes `bufs` (reading stops at the first error, EOF included). -/
+def autoReads (find : Bytes → Option (Decoder σ)) (src : Src) (bufs : List Nat) : RR (State σ) :=
+  reads (autoRead find) (State.init src) bufs
+
+/-- **outcome_by_sniff**: a body read to EOF is the original bytes when the sniffer finds
+nothing in the first data chunk, and otherwise the whole-body decode by the decoder it found —
+for every body, every split into source reads, every sequence of caller buffer sizes. -/
+theorem outcome_by_sniff (find : Bytes → Option (Decoder σ))
+    (hlaw : ∀ c d, find c = some d → d.Lawful) (src : Src) (bufs : List Nat)
+    (heof : (autoReads find src bufs).term = some .eof) :
+    (autoReads find src bufs).out =
+      match (sniffed src bufs).bind find with
+      | none => src.body
+      | some d => d.decodeAll src.body :=
+  autoReads_fresh find hlaw bufs src heof
+
+/-- **two_outcomes**: never a third result. -/
+theorem two_outcomes (find : Bytes → Option (Decoder σ))
+    (hlaw : ∀ c d, find c = some d → d.Lawful) (src : Src) (bufs : List Nat)
+    (heof : (autoReads find src bufs).term = some .eof) :
+    (autoReads find src bufs).out = src.body ∨
+    ∃ c d, sniffed src bufs = some c ∧ find c = some d ∧ (autoReads find src bufs).out = d.decodeAll src.body := by
+  have h := outcome_by_sniff find hlaw src bufs heof
+  cases hs : sniffed src bufs with
+  | none => left; simpa [hs] using h
+  | some c =>
+    cases hf : find c with
+    | none => left; simpa [hs, hf] using h
+    | some d => right; exact ⟨c, d, rfl, hf, by simpa [hs, hf] using h⟩
+
+/-- **split_independent**: the same body delivered in two different segmentations and read
+with two different buffer sequences gives the same bytes whenever the sniffer's verdicts on
+the two first chunks agree. -/
+theorem split_independent (find : Bytes → Option (Decoder σ))
+    (hlaw : ∀ c d, find c = some d → d.Lawful) (src src' : Src) (bufs bufs' : List Nat)
+    (hbody : src.body = src'.body)
+    (hverdict : (sniffed src bufs).bind find = (sniffed src' bufs').bind find)
+    (heof : (autoReads find src bufs).term = some .eof)
+    (heof' : (autoReads find src' bufs').term = some .eof) :
+    (autoReads find src bufs).out = (autoReads find src' bufs').out := by
+  rw [outcome_by_sniff find hlaw src bufs heof, outcome_by_sniff find hlaw src' bufs' heof',
+    hverdict, hbody]
+
+/-- **no_bytes_added**: the length of what was delivered is the length of the chosen outcome. -/
+theorem no_bytes_added (find : Bytes → Option (Decoder σ))
+    (hlaw : ∀ c d, find c = some d → d.Lawful) (src : Src) (bufs : List Nat)
+    (heof : (autoReads find src bufs).term = some .eof) :
+    (autoReads find src bufs).out.length =
+      match (sniffed src bufs).bind find with
+      | none => src.body.length
+      | some d => (d.decodeAll src.body).length := by
+  rw [outcome_by_sniff find hlaw src bufs heof]
+  cases (sniffed src bufs).bind find <;> rfl
+
+/-- **read_len_le**: every `Read(p)` returns at most `len(p)` bytes, in every state. -/
+theorem read_len_le (find : Bytes → Option (Decoder σ)) (a : State σ) (L : Nat) :
+    (autoRead find a L).out.length ≤ L :=
+  autoRead_len find a L
+
+/-- **peek_never_set**: from a fresh reader the patched code never has carried-over bytes. -/
+theorem peek_never_set (find : Bytes → Option (Decoder σ)) (src : Src) (bufs : List Nat) :
+    (autoReads find src bufs).st.peek = none := by
+  unfold autoReads
+  suffices h : ∀ (bufs : List Nat) (a : State σ), a.peek = none → (reads (autoRead find) a bufs).st.peek = none from
+    h bufs _ rfl
+  intro bufs
+  induction bufs with
+  | nil => intro a h; simpa [reads] using h
+  | cons L Ls ih =>
+    intro a h
+    have h1 := autoRead_peek_none find a L h
+    unfold reads
+    cases (autoRead find a L).term with
+    | some t => exact h1
+    | none => exact ih _ h1
+
+/-! ### the selection in `autoDecodeResponseBody` -/
+
+/-- **header_charset_always_applied**: auto-decode on, content type selected, Content-Type
+carries a supported non-UTF-8 charset ⇒ whatever the body contains (BOM, meta tags), however
+it is split and read, the delivered body is the whole-body decode from THAT charset. -/
+theorem header_charset_always_applied (cfg : Config) (ct cs : Bytes) (lookup : Bytes → Option (Decoder σ))
+    (find : Bytes → Option (Decoder σ)) (d : Decoder σ) (hl : d.Lawful)
+    (hon : cfg.disable = false) (hsel : shouldDecode cfg ct = true)
+    (hutf : isUtf8Label (Req.Ascii.lower cs) = false) (hlk : lookup (Req.Ascii.lower cs) = some d)
+    (src : Src) (bufs : List Nat)
+    (heof : (respReads cfg [] ct (.charset cs) lookup find src bufs).term = some .eof) :
+    (respReads cfg [] ct (.charset cs) lookup find src bufs).out = d.decodeAll src.body := by
+  have hselect : select cfg [] ct (.charset cs) lookup = .header d := by
+    simp [select, hon, hsel, hutf, hlk]
+  unfold respReads at heof ⊢
+  rw [hselect] at heof ⊢
+  simp only [wrapBody] at heof ⊢
+  have hb := bodyReads_hdr find bufs ⟨d, d.init, [], [], none⟩ src
+  rw [hb.2] at heof
+  rw [hb.1]
+  have inv0 : DecInv d src.body [] (DecR.mk d d.init [] [] none) src [] := by
+    constructor
+    · rfl
+    · simp [Decoder.feedAll]
+    · simp [Decoder.feedAll]
+    · simp
+    · intro hc; simp at hc
+  have := decReads_eof hl bufs [] (_, _) [] inv0 heof
+  simpa using this
+
+/-- **unselected_type_untouched**: auto-decode disabled, or an `Accept-Encoding` response
+header present, or the content type not selected ⇒ every `Read` is the underlying `Read`
+(same bytes, same errors), so the body is never modified. -/
+theorem unselected_type_untouched (cfg : Config) (ae ct : Bytes) (mp : MediaParse)
+    (lookup : Bytes → Option (Decoder σ)) (find : Bytes → Option (Decoder σ))
+    (h : cfg.disable = true ∨ ae ≠ [] ∨ shouldDecode cfg ct = false) (src : Src) (bufs : List Nat) :
+    (respReads cfg ae ct mp lookup find src bufs).out = (reads Src.read src bufs).out ∧
+    (respReads cfg ae ct mp lookup find src bufs).term = (reads Src.read src bufs).term := by
+  have hselect : select cfg ae ct mp lookup = .untouched := by
+    unfold select
+    rcases h with h | h | h
+    · simp [h]
+    · simp [h]
+    · by_cases h1 : cfg.disable = true ∨ ae ≠ []
+      · simp [h1]
+      · simp [h1, h]
+  unfold respReads
+  rw [hselect]
+  exact bodyReads_raw find bufs src
+
+/-- … and read to EOF it is the original body. -/
+theorem unselected_body_intact (cfg : Config) (ae ct : Bytes) (mp : MediaParse)
+    (lookup : Bytes → Option (Decoder σ)) (find : Bytes → Option (Decoder σ))
+    (h : cfg.disable = true ∨ ae ≠ [] ∨ shouldDecode cfg ct = false) (src : Src) (bufs : List Nat)
+    (heof : (respReads cfg ae ct mp lookup find src bufs).term = some .eof) :
+    (respReads cfg ae ct mp lookup find src bufs).out = src.body := by
+  have hu := unselected_type_untouched cfg ae ct mp lookup find h src bufs
+  rw [hu.2] at heof
+  rw [hu.1]
+  exact rawReads_eof bufs src heof
+
+/-- **utf8_identity**: a Content-Type that says utf-8 (`utf-8`/`utf8` anywhere in the charset,
+any case) leaves the body untouched — no sniffing, no decoding. -/
+theorem utf8_identity (cfg : Config) (ae ct cs : Bytes) (lookup : Bytes → Option (Decoder σ))
+    (find : Bytes → Option (Decoder σ)) (hutf : isUtf8Label (Req.Ascii.lower cs) = true)
+    (src : Src) (bufs : List Nat) :
+    (respReads cfg ae ct (.charset cs) lookup find src bufs).out = (reads Src.read src bufs).out ∧
+    (respReads cfg ae ct (.charset cs) lookup find src bufs).term = (reads Src.read src bufs).term := by
+  have hselect : select cfg ae ct (.charset cs) lookup = .untouched := by
+    unfold select
+    by_cases h1 : cfg.disable = true ∨ ae ≠ []
+    · simp [h1]
+    · by_cases h2 : shouldDecode cfg ct = false
+      · simp [h1, h2]
+      · simp [h1, h2, hutf]
+  unfold respReads
+  rw [hselect]
+  exact bodyReads_raw find bufs src
+
+/-- Without a usable header charset the body goes to the sniffing reader, for which
+`outcome_by_sniff` holds. -/
+theorem sniffing_path_two_outcomes (cfg : Config) (ct : Bytes) (mp : MediaParse)
+    (lookup : Bytes → Option (Decoder σ)) (find : Bytes → Option (Decoder σ))
+    (hlaw : ∀ c d, find c = some d → d.Lawful)
+    (hon : cfg.disable = false) (hsel : shouldDecode cfg ct = true)
+    (hmp : mp = .err ∨ mp = .noCharset) (src : Src) (bufs : List Nat)
+    (heof : (respReads cfg [] ct mp lookup find src bufs).term = some .eof) :
+    (respReads cfg [] ct mp lookup find src bufs).out =
+      match (sniffed src bufs).bind find with
+      | none => src.body
+      | some d => d.decodeAll src.body := by
+  have hselect : select cfg [] ct mp lookup = .peek := by
+    rcases hmp with h | h <;> simp [select, hon, hsel, h]
+  unfold respReads at heof ⊢
+  rw [hselect] at heof ⊢
+  simp only [wrapBody] at heof ⊢
+  have hb := bodyReads_auto find bufs (State.init src)
+  rw [hb.2] at heof
+  rw [hb.1]
+  exact autoReads_fresh find hlaw bufs src heof
+
+/-! ### `FindEncoding`: the BOM table -/
+
+/-- **utf8_bom_not_decoded**: content starting with the UTF-8 BOM is never decoded (the
+prescan is not even consulted), whatever `htmlcharset.Lookup` resolves `utf-8` to, as long as
+it knows the three labels of the table. -/
+theorem utf8_bom_not_decoded (lookup prescan : Bytes → Option (Enc σ)) (rest : Bytes) (e : Enc σ)
+    (h8 : lookup utf8Name = some e) (hname : Req.Ascii.lower e.name = utf8Name) :
+    findEncoding lookup prescan (0xef :: 0xbb :: 0xbf :: rest) = none := by
+  simp only [utf8Name] at h8 hname
+  simp [findEncoding, boms, bomScan, List.isPrefixOf, h8, dropUtf8, hname, utf8Name]
+
+/-- **bom_beats_meta**: a UTF-16 byte-order mark decides, whatever the prescan would say. -/
+theorem bom_beats_meta (lookup prescan : Bytes → Option (Enc σ)) (rest : Bytes) (e : Enc σ)
+    (hle : lookup [117, 116, 102, 45, 49, 54, 108, 101] = some e)
+    (hname : Req.Ascii.lower e.name ≠ utf8Name) :
+    findEncoding lookup prescan (0xff :: 0xfe :: rest) = some e.dec := by
+  simp [findEncoding, boms, bomScan, List.isPrefixOf, hle, dropUtf8, hname]
+
+/-! ### non-vacuity: a concrete sniffer and concrete runs -/
+
+/-- `htmlcharset.Lookup` restricted to the BOM table's labels. -/
+def demoLookup (label : Bytes) : Option (Enc Bytes) :=
+  if label = [117, 116, 102, 45, 49, 54, 98, 101] then some ⟨label, utf16 true⟩
+  else if label = [117, 116, 102, 45, 49, 54, 108, 101] then some ⟨label, utf16 false⟩
+  else if label = utf8Name then some ⟨label, latin1⟩
+  else none
+
+/-- BOM sniffing only (no HTML prescan). -/
+def demoFind : Bytes → Option (Decoder Bytes) := findEncoding demoLookup (fun _ => none)
+
+theorem demoFind_cases (c : Bytes) :
+    demoFind c = none ∨ demoFind c = some (utf16 true) ∨ demoFind c = some (utf16 false) := by
+  have l1 : demoLookup [117, 116, 102, 45, 49, 54, 98, 101] = some ⟨[117, 116, 102, 45, 49, 54, 98, 101], utf16 true⟩ := rfl
+  have l2 : demoLookup [117, 116, 102, 45, 49, 54, 108, 101] = some ⟨[117, 116, 102, 45, 49, 54, 108, 101], utf16 false⟩ := rfl
+  have l3 : demoLookup [117, 116, 102, 45, 56] = some ⟨[117, 116, 102, 45, 56], latin1⟩ := rfl
+  have d1 : dropUtf8 (⟨[117, 116, 102, 45, 49, 54, 98, 101], utf16 true⟩ : Enc Bytes) = some (utf16 true) := rfl
+  have d2 : dropUtf8 (⟨[117, 116, 102, 45, 49, 54, 108, 101], utf16 false⟩ : Enc Bytes) = some (utf16 false) := rfl
+  have d3 : dropUtf8 (⟨[117, 116, 102, 45, 56], latin1⟩ : Enc Bytes) = none := rfl
+  unfold demoFind findEncoding
+  by_cases hc : c = []
+  · simp [hc]
+  · simp only [hc, if_false, boms, bomScan, l1, l2, l3, d1, d2, d3]
+    by_cases h1 : ([254, 255] : Bytes).isPrefixOf c = true
+    · simp [h1]
+    · by_cases h2 : ([255, 254] : Bytes).isPrefixOf c = true
+      · simp [h1, h2]
+      · by_cases h3 : ([239, 187, 191] : Bytes).isPrefixOf c = true
+        · simp [h1, h2, h3]
+        · simp [h1, h2, h3]
+
+theorem demoFind_lawful : ∀ c d, demoFind c = some d → d.Lawful := by
+  intro c d h
+  rcases demoFind_cases c with h0 | h0 | h0
+  · rw [h0] at h; simp at h
+  · rw [h0] at h; simp at h; subst h; exact utf16_lawful _
+  · rw [h0] at h; simp at h; subst h; exact utf16_lawful _
+
+/-- "h" in UTF-16LE with BOM, arriving as 3 + 1 bytes (the unit `68 00` is cut in two). -/
+def demoSrc : Src := ⟨[[0xff, 0xfe, 0x68], [0x00]], .eof, false⟩
+
+-- read with a 3-byte then 8-byte buffers: EOF is reached and the output is the complete
+-- transcoding: U+FEFF 'h' — the split inside the character is harmless
+example : (autoReads demoFind demoSrc [3, 8, 8, 8]).term = some .eof := by decide
+example : (autoReads demoFind demoSrc [3, 8, 8, 8]).out = [0xef, 0xbb, 0xbf, 0x68] := by decide
+example : (utf16 false).decodeAll demoSrc.body = [0xef, 0xbb, 0xbf, 0x68] := by decide
+-- a 1-byte first buffer shows only `ff` to the sniffer: the BOM is not noticed, the body is raw
+example : (autoReads demoFind demoSrc [1, 8, 8, 8, 8]).out = demoSrc.body := by decide
+example : (autoReads demoFind demoSrc [1, 8, 8, 8, 8]).term = some .eof := by decide
+example : sniffed demoSrc [1, 8, 8] = some [0xff] := by decide
+-- byte-at-a-time caller
+example : (autoReads demoFind demoSrc [3, 1, 1, 1, 1, 1, 1, 1]).out = [0xef, 0xbb, 0xbf, 0x68] := by decide
+
+/-! ### the pinned tree's `peekRead` violates all of this (replayed by the lane `read`) -/
+
+/-- A caller reading with buffers `bufs` (contents included) from the pinned tree's reader. -/
+def legacyReads (find : Bytes → Option (Decoder σ)) (src : Src) (bufs : List Bytes) : RR (State σ) :=
+  reads (Legacy.autoRead find) (State.init src) bufs
+
+def dirty (n : Nat) : Bytes := List.replicate n 0xAA
+
+/-- **legacy_pads**: `n = len(p)`: a 4-byte UTF-16LE body read into an 8-byte buffer comes
+back as 8 bytes — the 4 decoded bytes followed by what the buffer held before. Neither the
+original nor the transcoding; bytes added. -/
+theorem legacy_pads :
+    let src : Src := ⟨[[0xff, 0xfe, 0x68, 0x00]], .eof, false⟩
+    let r := legacyReads demoFind src [dirty 8, dirty 8]
+    r.term = some .eof ∧ r.out ≠ src.body ∧ r.out ≠ (utf16 false).decodeAll src.body ∧
+    r.out = [0xef, 0xbb, 0xbf, 0x68, 0xAA, 0xAA, 0xAA, 0xAA] := by decide
+
+/-- **legacy_splits_character**: the first chunk is decoded on its own: the body of `demoSrc`
+(unit `68 00` split by the first read) becomes U+FEFF U+FFFD U+FFFD instead of U+FEFF 'h'. -/
+theorem legacy_splits_character :
+    let r := legacyReads demoFind demoSrc [dirty 3, dirty 8, dirty 8]
+    r.term = some .eof ∧ r.out ≠ demoSrc.body ∧ r.out ≠ (utf16 false).decodeAll demoSrc.body := by decide
+
+/-- **legacy_sniffs_stale_buffer**: `FindEncoding(p)` instead of `p[:n]`: the 1-byte body `ff`
+read into a 2-byte buffer whose second byte still holds `fe` is taken for UTF-16LE and comes
+back as U+FFFD — the body never contained a BOM. -/
+theorem legacy_sniffs_stale_buffer :
+    let src : Src := ⟨[[0xff]], .eof, false⟩
+    let r := legacyReads demoFind src [[0xFE, 0xFE], dirty 8]
+    r.term = some .eof ∧ r.out = [0xef, 0xbf, 0xbd] ∧ r.out ≠ src.body ∧ sniffed src [2, 8] = some [0xff] ∧
+    demoFind [0xff] = none := by decide
+
+-- the patched model on the same three inputs
+example : (autoReads demoFind ⟨[[0xff, 0xfe, 0x68, 0x00]], .eof, false⟩ [8, 8]).out = [0xef, 0xbb, 0xbf, 0x68] := by decide
+example : (autoReads demoFind ⟨[[0xff]], .eof, false⟩ [2, 8]).out = [0xff] := by decide
+
+end Req.Props.C15
